@@ -85,6 +85,21 @@ class World:
             return self.spawn(r)
         return r
 
+    def mark(self):
+        """the script reached a point after which unload is to be requested densely (events and virtual times)"""
+        self.marks.append(len(self.rec.events))
+        self.mark_times.append(round(self.loop.time() - self.t0, 3))
+
+    def boot_in(self, data, src, note=""):
+        """a datagram from the local network arrives on every open bootstrap socket of T"""
+        for tr, sid in list(self.rec.bsocks.items()):
+            if not tr.closed:
+                self.rec.log("BootIn", sid, note=note)
+                try:
+                    tr.inject(data, src)
+                except Exception as e:  # noqa: BLE001
+                    self.listener_errors.append(repr(e))
+
     def call(self, fn, *a, **k):
         try:
             r = fn(*a, **k)
@@ -123,6 +138,8 @@ class World:
         for sub in ("U_Cache", "U_Listener", "U_Tasks"):
             if sub not in seen and not (sub == "U_Cache" and self.kind == "basic"):
                 self.rec.log(sub, note="implied: unload() returned")
+        self.rec.events.append({"e": "U_Boot", "a": 0, "ok": True, "o": "ov", "s": self.rec.open_boot_sockets()})
+        self.rec.notes.append("open bootstrap sockets when unload() returned")
         if self.kind == "tunnel":
             self.rec.events.append({"e": "U_Tunnels", "a": 0, "ok": True, "o": "ov", "s": self.rec.open_sockets()})
             self.rec.notes.append("open outside sockets when unload() returned")
@@ -136,6 +153,8 @@ class World:
 class Scenario:
     name = ""
     n_nodes = 4
+    dense = ()           # unload is requested at event mark + d for each of these (in addition to the driver's choice)
+    dense_times = ()     # ... and at virtual time of the mark + d
 
     def build(self, w):
         raise NotImplementedError
@@ -180,6 +199,49 @@ class PlainScenario(Scenario):
         await self.generic(w)
         await asyncio.sleep(11)
         await self.generic(w)
+
+
+class BootScenario(Scenario):
+    """An overlay with the shipped bootstrappers: bootstrap() while its broadcast socket is not open yet, datagrams on
+    that socket, a second bootstrap() of the initialised bootstrappers. Unload is requested at every event after a
+    bootstrap() call."""
+    name = "Community+bootstrappers"
+    dense = tuple(range(1, 20))          # unload at mark + d for every d: the loop iterations in which the socket opens
+    dense_times = (0.0, 0.2, 0.7)
+
+    def cls(self):
+        return _plain_community()
+
+    def build(self, w):
+        from ipv8.bootstrapping.dispersy.bootstrapper import DispersyBootstrapper
+        from ipv8.bootstrapping.udpbroadcast.bootstrapper import UDPBroadcastBootstrapper
+        c = self.cls()
+        w.node(c)
+        w.node(c)
+        n = Node(w.net, key=w.keys[2], wiring=w.wiring)
+        ov = n.add(c)
+        ov.bootstrappers.append(DispersyBootstrapper([w.nodes[0].address], []))
+        ov.bootstrappers.append(UDPBroadcastBootstrapper())
+        w.nodes.append(n)
+        w.T, w.t = n, ov
+        w.rec.watch(n, ov)
+
+    async def script(self, w):
+        from ipv8.bootstrapping.udpbroadcast.bootstrapper import HDR_ANNOUNCE
+        p1, p2 = w.peers
+        w.mark()
+        w.on_t(w.t.bootstrap)
+        await asyncio.sleep(0.5)
+        w.boot_in(HDR_ANNOUNCE + w.t.get_prefix(), p1.address, "beacon of a peer")
+        await asyncio.sleep(0.5)
+        w.boot_in(p2.overlay.create_introduction_request(w.T.address), p2.address, "introduction request of a peer")
+        await asyncio.sleep(1)
+        await self.generic(w)
+        await asyncio.sleep(31)
+        w.on_t(w.t.bootstrap)              # initialised by now: asks for addresses (beacons) only
+        await asyncio.sleep(1)
+        w.boot_in(HDR_ANNOUNCE + w.t.get_prefix(), p2.address, "beacon of a peer")
+        await asyncio.sleep(1)
 
 
 class DiscoveryScenario(Scenario):
@@ -329,11 +391,57 @@ class TunnelScenario(Scenario):
         await asyncio.sleep(17)
         if c1 is not None and c1.hop is not None:
             w.call(p1.overlay.send_data, c1.hop.address, c1.circuit_id, ("1.2.3.4", 5000), ("0.0.0.0", 0), BT_QUERY)
+        await asyncio.sleep(1)
+        # the owners give up their circuits: T gets DESTROY for the circuit it exits and for the one it relays and
+        # schedules their removal (remove_tunnel_delay); unload requested while those removals are pending
+        w.mark()
+        w.call(p1.overlay.remove_circuit, c1.circuit_id if c1 is not None else 0, "script", destroy=True)
         w.call(p2.overlay.remove_circuit, c2.circuit_id if c2 is not None else 0, "script", destroy=True)
         await asyncio.sleep(7)
 
     async def extra(self, w):
         return
+
+
+class ExitScenario(TunnelScenario):
+    """T only exits (no circuit of its own, nothing relayed): the removal of an exit socket is scheduled by the DESTROY
+    of the circuit's owner, and unload is requested while that removal waits out remove_tunnel_delay - first with a
+    second exit socket that has no removal pending, then with the exit socket whose removal is pending being the only
+    thing unload has to wait for."""
+    name = "TunnelCommunity/exit-only"
+    dense_times = (0.05, 0.9, 2.5, 4.5)
+
+    def build(self, w):
+        from ipv8.messaging.anonymization.tunnel import (PEER_FLAG_EXIT_BT, PEER_FLAG_EXIT_IPV8, PEER_FLAG_RELAY,
+                                                         PEER_FLAG_SPEED_TEST)
+        c = self.cls()
+        w.node(c, observed=True, peer_flags={PEER_FLAG_RELAY, PEER_FLAG_SPEED_TEST, PEER_FLAG_EXIT_BT, PEER_FLAG_EXIT_IPV8})
+        w.node(c, peer_flags={PEER_FLAG_RELAY, PEER_FLAG_SPEED_TEST})
+        w.node(c, peer_flags={PEER_FLAG_RELAY, PEER_FLAG_SPEED_TEST})
+
+    async def script(self, w):
+        p1, p2 = w.peers
+        for _ in range(2):
+            w.introduce(pairs={(0, 1), (0, 2)})
+            await asyncio.sleep(1)
+        c1 = w.call(p1.overlay.create_circuit, 1, required_exit=w.peer_obj(w.T))
+        c2 = w.call(p2.overlay.create_circuit, 1, required_exit=w.peer_obj(w.T))
+        await asyncio.sleep(2)
+        for p, c, dst in ((p1, c1, "1.2.3.4"), (p2, c2, "1.2.3.5")):
+            if c is not None and c.hop is not None:
+                w.call(p.overlay.send_data, c.hop.address, c.circuit_id, (dst, 5000), ("0.0.0.0", 0), BT_QUERY)
+        await asyncio.sleep(1)
+        for tr in list(w.rec.socks):
+            if not tr.closed:
+                w.rec.log("SockIn", w.rec.socks[tr])
+                tr.inject(BT_REPLY, ("1.2.3.4", 5000))
+        await asyncio.sleep(1)
+        # first one owner gives up its circuit (the other exit socket has no removal pending: unload removes it itself
+        # and waits for that), then the other one (every exit socket left has a removal pending)
+        for p, c in ((p2, c2), (p1, c1)):
+            w.mark()
+            w.call(p.overlay.remove_circuit, c.circuit_id if c is not None else 0, "script", destroy=True)
+            await asyncio.sleep(7)
 
 
 class HiddenTunnelScenario(TunnelScenario):
@@ -433,7 +541,8 @@ class AttestationScenario(Scenario):
         await self.generic(w)
 
 
-SCENARIOS = [PlainScenario(), DiscoveryScenario(), DHTScenario(), DHTDiscoveryScenario(), TunnelScenario(),
+SCENARIOS = [PlainScenario(), BootScenario(), DiscoveryScenario(), DHTScenario(), DHTDiscoveryScenario(), TunnelScenario(),
+             ExitScenario(),
              HiddenTunnelScenario(), PexScenario(), IdentityScenario(), AttestationScenario()]
 
 
@@ -537,6 +646,12 @@ async def late_phase(w):
             rec.log("SockIn", rec.socks[tr], note="late outside datagram")
             tr.inject(BT_REPLY, ("1.2.3.4", 5000))
     await asyncio.sleep(0.01)
+    if rec.bsocks:
+        from ipv8.bootstrapping.udpbroadcast.bootstrapper import HDR_ANNOUNCE
+        rec.context = "late datagram on a bootstrap socket"
+        w.boot_in(HDR_ANNOUNCE + prefix, src, "late beacon")
+        w.boot_in(w.peers[0].overlay.create_introduction_request(T.address), src, "late introduction request")
+        await asyncio.sleep(0.01)
     # the application tries to start new work on the unloaded overlay: must be refused
     probe = ProbeLog()
 
